@@ -132,6 +132,36 @@ func c07BuildBig() {
 	}
 }
 
+// c07BuildSpecial adds blocking rules with the content-replacing options
+// ($empty, $mp4) and $popup, generic and domain-specific.
+func c07BuildSpecial() {
+	domains := [][]gen.Val{nil, {{Name: "d.com"}}, {{Name: "d.com", Neg: true}}, {{Name: "d.com"}, {Name: "e.com", Neg: true}}, {{Name: "d.*"}}}
+	for _, imp := range []bool{false, true} {
+		for _, dom := range domains {
+			for kind := 0; kind < 3; kind++ {
+				for mask := 0; mask < 4; mask++ {
+					s := &gen.Spec{Pattern: "||x.com^", Important: imp, Domains: dom}
+					switch kind {
+					case 0:
+						s.Empty = true
+					case 1:
+						s.Mp4 = true
+					default:
+						s.Popup = true
+					}
+					if mask&1 != 0 {
+						s.ThirdParty = 1
+					}
+					if mask&2 != 0 {
+						s.DNSTypes = []gen.Val{{Name: "A"}}
+					}
+					c07Pool = append(c07Pool, c07Make(s))
+				}
+			}
+		}
+	}
+}
+
 type c07Witness struct {
 	A string `json:"a"`
 	B string `json:"b,omitempty"`
@@ -182,7 +212,11 @@ func c07Adders(s *gen.Spec) (out []*gen.Spec) {
 		return false
 	}
 	if !has(s.TypesP, "media") && !has(s.TypesR, "media") {
-		add(func(n *gen.Spec) { n.TypesP = append(n.TypesP, "media") })
+		if !s.Popup && len(s.DocOpts) == 0 {
+			// (next to $popup or a document-level option an included content
+			// type is replaced by {document}: it adds nothing)
+			add(func(n *gen.Spec) { n.TypesP = append(n.TypesP, "media") })
+		}
 		add(func(n *gen.Spec) { n.TypesR = append(n.TypesR, "media") })
 	}
 
@@ -197,13 +231,14 @@ func init() {
 	c07PoolOnce.Do(func() {
 		c07BuildPool()
 		c07BuildBig()
+		c07BuildSpecial()
 	})
 	tripleCases := map[core.Tier]int{core.Quick: 64, core.Thorough: 60000}
 	selCases := map[core.Tier]int{core.Quick: 3000, core.Thorough: 300000}
 	core.Register(&core.Prop{
 		ID:    "C07",
 		Level: "exploration",
-		Rule: fmt.Sprintf("pool = every combination of the features the comparison reads (exception x important x 6 $domain shapes (incl. wildcard-TLD only) x 5 content-type shapes x third-party x match-case x $dnstype x $ctag x $client x $denyallow, plus rules carrying 10..16 modifiers (all content types and more), = %d rules); "+
+		Rule: fmt.Sprintf("pool = every combination of the features the comparison reads (exception x important x 6 $domain shapes (incl. wildcard-TLD only) x 5 content-type shapes x third-party x match-case x $dnstype x $ctag x $client x $denyallow, plus rules carrying 10..16 modifiers (all content types and more) and blocking rules with $empty / $mp4 / $popup, = %d rules); "+
 			"exhaustive over the pool: irreflexivity, asymmetry and agreement with class order / specific-over-generic for all ordered pairs, the winner of both selection functions on every ordered pair, add-one-modifier => strictly higher for every rule; "+
 			"transitivity of > and of incomparability on all triples of PRNG-drawn 90-rule subsets; selection maximality for candidate lists of 2..5 rules in all permutations (one in thirty: 13..60 rules in 24 PRNG-drawn orders) through NewMatchingResult (also with a referrer-level $genericblock / $urlblock exception, winner maximal among the eligible candidates) and GetDNSBasicRule, and through NetworkEngine.Match / Engine.MatchRequest / DNSEngine.MatchRequest with the candidates spread over the three lookup tables; "+
 			"non-trivial = pool rule compared against the whole pool (its ordered pairs are counted in events.ordered_pairs), triple subset, or candidate list; distinct by the rule texts involved", len(c07Pool)),
